@@ -27,6 +27,9 @@ fn create_equalizer(
 
     if let Some(other_hctl_var_name) = other_hctl_var_name {
         // do comparator between the two HCTL variables
+        // (it is used to rename variables, so it must be a pure equality relation: constraints that
+        // the unit set puts on one of the variables must not be carried over to the other one)
+        comparator = graph.symbolic_context().mk_constant(true);
 
         // HCTL variables are named x, xx, xxx, ...
         let other_hctl_var_id = other_hctl_var_name.len() - 1; // len of var codes its index
@@ -48,6 +51,7 @@ fn create_equalizer(
                 .mk_var_by_name(hctl_var2_component_name.as_str());
             comparator = comparator.and(&bdd_hctl_var1_component.iff(&bdd_hctl_var2_component));
         }
+        return GraphColoredVertices::new(comparator, graph.symbolic_context());
     } else {
         // do comparator between network vars and a HCTL variable
 
@@ -153,8 +157,9 @@ pub fn substitute_hctl_var(
     let comparator = create_comparator_two_vars(graph, hctl_var_before, hctl_var_after);
     let colored_states_new = colored_states.intersect(&comparator);
 
-    // get rid of the old var (project it out)
+    // get rid of the old var (project it out), and make sure the result is valid in this graph
     project_out_hctl_var(graph, &colored_states_new, hctl_var_before)
+        .intersect(graph.unit_colored_vertices())
 }
 
 /// Given a `domain` of ColoredVertices, which restricts valid states, create the same
